@@ -1,7 +1,7 @@
 /-
 C12 — elliptic-curve key classes, adapter layer only: which byte strings are private keys, the
 canonical form `FromBytes` returns for public keys, the optional `0x00` prefix of the ed25519
-classes, RFC 8032 clamping, SEC1 uncompressed/hybrid parsing.  Curve arithmetic (scalar
+classes, RFC 8032 clamping, SEC1 uncompressed/hybrid/raw parsing.  Curve arithmetic (scalar
 multiplication, square roots, the Edwards on-curve test) is opaque — it is differentially tested.
 Proofs in `BipVerif/Lemmas/Ecc.lean`.
 -/
@@ -55,9 +55,20 @@ theorem compress_aff_length (c : CurveT) (x y : Nat) :
 
 theorem coordLen_eq_32 (c : CurveT) : c.wcurve.coordLen = 32 := wcurve_coordLen c
 
+/-- accepted input lengths: 33 / 65 for secp256k1 (libsecp256k1); 33 / 64 / 65 for NIST P-256
+(python-ecdsa also takes the raw `x ‖ y` form) -/
 theorem pubFromBytes_ecdsa_input_length (c : CurveT) (hc : c = .secp256k1 ∨ c = .nist256p1) (b k : Bytes)
-    (h : pubFromBytes c b = some k) : b.length = 33 ∨ b.length = 65 :=
+    (h : pubFromBytes c b = some k) :
+    b.length = 33 ∨ b.length = 65 ∨ (c = .nist256p1 ∧ b.length = 64) :=
   pubFromBytes_ecdsa_length c hc b k h
+
+theorem pubFromBytes_secp256k1_input_length (b k : Bytes) (h : pubFromBytes .secp256k1 b = some k) :
+    b.length = 33 ∨ b.length = 65 :=
+  pubFromBytes_secp256k1_length b k h
+
+theorem pubFromBytes_nist256p1_input_length (b k : Bytes) (h : pubFromBytes .nist256p1 b = some k) :
+    b.length = 33 ∨ b.length = 64 ∨ b.length = 65 :=
+  pubFromBytes_nist256p1_length b k h
 
 /-! ### 3. ed25519 prefix handling -/
 
@@ -118,8 +129,32 @@ theorem hybrid_secp256k1 (x y : Nat) (pfx : UInt8) (hp : pfx = 6 ∨ pfx = 7)
       if (y % 2 = 1) = (pfx = 7) then some (.aff x y) else none :=
   EccLemmas.hybrid_secp256k1 x y pfx hp h
 
-theorem hybrid_nist256p1_refused (pfx : UInt8) (hp : pfx = 6 ∨ pfx = 7) (rest : Bytes) :
-    pubFromBytes .nist256p1 (pfx :: rest) = none :=
-  EccLemmas.hybrid_nist256p1_refused pfx hp rest
+/-- python-ecdsa accepts the hybrid encodings under the same parity rule as libsecp256k1 -/
+theorem hybrid_nist256p1 (x y : Nat) (pfx : UInt8) (hp : pfx = 6 ∨ pfx = 7)
+    (h : Prim.nist256p1.onCurve (.aff x y) = true) :
+    wDecodePub .nist256p1 (pfx :: Bytes.ofNatBE 32 x ++ Bytes.ofNatBE 32 y) =
+      if (y % 2 = 1) = (pfx = 7) then some (.aff x y) else none :=
+  EccLemmas.hybrid_nist256p1 x y pfx hp h
+
+/-- both curves at once -/
+theorem hybrid_ecdsa (c : CurveT) (hc : c = .secp256k1 ∨ c = .nist256p1) (x y : Nat) (pfx : UInt8)
+    (hp : pfx = 6 ∨ pfx = 7) (h : c.wcurve.onCurve (.aff x y) = true) :
+    wDecodePub c (pfx :: Bytes.ofNatBE 32 x ++ Bytes.ofNatBE 32 y) =
+      if (y % 2 = 1) = (pfx = 7) then some (.aff x y) else none :=
+  EccLemmas.hybrid_ecdsa c hc x y pfx hp h
+
+/-- python-ecdsa accepts the raw 64-byte `x ‖ y` of an on-curve point (`onCurve` includes `x, y < p`) -/
+theorem raw_nist256p1 (x y : Nat) (h : Prim.nist256p1.onCurve (.aff x y) = true) :
+    wDecodePub .nist256p1 (Bytes.ofNatBE 32 x ++ Bytes.ofNatBE 32 y) = some (.aff x y) :=
+  EccLemmas.raw_nist256p1 x y h
+
+theorem pubFromBytes_raw_nist256p1 (x y : Nat) (h : Prim.nist256p1.onCurve (.aff x y) = true) :
+    pubFromBytes .nist256p1 (Bytes.ofNatBE 32 x ++ Bytes.ofNatBE 32 y) =
+      some (UInt8.ofNat (2 + y % 2) :: Bytes.ofNatBE 32 x) :=
+  EccLemmas.pubFromBytes_raw_nist256p1 x y h
+
+/-- libsecp256k1 refuses every 64-byte input -/
+theorem raw_secp256k1_refused (b : Bytes) (hb : b.length = 64) : pubFromBytes .secp256k1 b = none :=
+  EccLemmas.raw_secp256k1_refused b hb
 
 end BipVerif.Props.C12
